@@ -35,9 +35,8 @@ def frozen_closure(src):
 
 
 def run(ded, repo, tier):
-    for q in m.FUNCS:
-        eng = m.make_engine(repo)
-        driver.discharge(ded, eng, q, clause_of={'*': 'onetoone_inverse'}, tier=tier)
+    driver.run_parallel(ded, [dict(module='contracts.oto', repo=repo, q=q, tier=tier, clause_of={'*': 'onetoone_inverse'})
+                              for q in m.FUNCS])
     src = front.load(repo, m.FILE)
     missing, raiser = frozen_closure(src)
     if missing is None:
